@@ -723,6 +723,19 @@ func runC18(c *Ctx) {
 		r.Add(core.Obligation{Rule: "persist", Key: "persist loadConfig reads the whole file", Func: core.FuncName(lc), Pos: c.P.Pos(lc.Pos()), Status: st,
 			Basis: "loadByteArray is fed by ReadFile / ReadAll without a limiting reader", Detail: det})
 	}
+	// ---- bounds ----
+	// loadByteArray handles the bytes of a file nobody vouches for: every index and slice expression it evaluates (in
+	// itself and in the module functions it calls) is proved in bounds for an arbitrary byte string, with the same
+	// interpreter that decides C01 and C08. Library calls (yaml, strconv, bytes) are opaque results.
+	r.Rule("bounds", "every index and slice expression of the loader is in bounds for an arbitrary file", 1)
+	if lb := c.P.Method(rel, "Handler", "loadByteArray"); lb != nil {
+		sink := newBoundsSink(c)
+		sink.filter = func(f absint.Finding) bool { return kindRule(f.Kind) == "bounds" }
+		cfg := absint.Config{DecodeLenCap: false, CapRule: false, Opaque: handlerOpaque, Budget: 600000, MaxStates: 32, MaxOutcomes: 8}
+		in := absint.New(c.P, cfg, sink.sink)
+		sink.root = "loadByteArray arbitrary file"
+		in.Exec(lb, []absint.Value{nil, in.InputSlice("F", true)}, nil, absint.NewHeap())
+	}
 	// ---- checksum ----
 	// Damage other than truncation - a digit changed inside an address, a line lost from a client id - still parses and
 	// keeps the count. The file carries a checksum of its own bytes: the writer appends one computed over what it
